@@ -430,7 +430,9 @@ evhttp_response_needs_body(struct evhttp_request *req)
 	return (req->response_code != HTTP_NOCONTENT &&
 		req->response_code != HTTP_NOTMODIFIED &&
 		(req->response_code < 100 || req->response_code >= 200) &&
-		req->type != EVHTTP_REQ_CONNECT &&
+		/* only a 2xx response to CONNECT ends with its header section */
+		(req->type != EVHTTP_REQ_CONNECT ||
+		 req->response_code < 200 || req->response_code >= 300) &&
 		req->type != EVHTTP_REQ_HEAD);
 }
 
